@@ -58,6 +58,8 @@ def dy_nz(rng, bits=2, lo=-2, hi=2, margin=0.5):
 def rvec(rng, n, cplx, nz=False, **kw):
     """list of [re, im] pairs (im = 0 for real)"""
     f = dy_nz if nz else dy
+    if not nz:
+        kw.pop("margin", None)
     return [[f(rng, **kw), (f(rng, **kw) if cplx else 0.0)] for _ in range(n)]
 
 
@@ -915,6 +917,19 @@ def op_registry():
     R["operator.DiagonalStack"] = lambda rng, c: (operator.DiagonalStack([operator.Exp((2,), input_dtype=dt(c)), operator.Abs((2,), input_dtype=dt(c))]), [2, 2], True)
     R["operator.VerticalStack"] = lambda rng, c: (operator.VerticalStack([operator.Exp((2,), input_dtype=dt(c)), operator.Abs((2,), input_dtype=dt(c))]), [2], True)
     R["operator.DiagonalReplicated"] = lambda rng, c: (operator.DiagonalReplicated(operator.Exp((2,), input_dtype=dt(c)), 2), [2, 2], False)
+    # real input, complex output (the adjoint in Re<.,.> is Re(J^H w); cotangents are genuinely complex)
+    R["Operator-R2C-linear"] = lambda rng, c: None if c else (
+        _r2c_linear(arr(rng, (2, 3), True, bits=1)), [3], False)
+    R["Operator-R2C-phase"] = lambda rng, c: None if c else (
+        _r2c_phase(arr(rng, (3, 3), False, bits=1), arr(rng, (3, 3), False, bits=1)), [3], False)
+    R["Operator-R2C-fft"] = lambda rng, c: None if c else (
+        operator.Operator((4,), eval_fn=lambda x: snp.fft.fft(x) * (1.0 + 0.5j), input_dtype=np.float64), [4], False)
+    R["Function.slice-R2C"] = lambda rng, c: None if c else (
+        _fn_mixed("rc").slice(0, arr(rng, (2,), False)), [2], False)
+    R["LinearOperator-R2C"] = lambda rng, c: None if c else (_r2c_linop(arr(rng, (2, 3), True, bits=1)), [3], False)
+    # complex input, real output
+    R["Operator-C2R"] = lambda rng, c: (operator.Operator((3,), eval_fn=lambda x: snp.real(x * x) + 2.0 * snp.imag(x), input_dtype=np.complex128), [3], False) if c else None
+    R["Function.slice-C2R"] = lambda rng, c: (_fn_mixed("cr").slice(1, arr(rng, (2,), True)), [2], False) if c else None
     R["Function.slice"] = lambda rng, c: (_fn3(c).slice(1, arr(rng, (2,), c), arr(rng, (2,), c)), [2], False)
     R["Function.join"] = lambda rng, c: (_fn3(c).join(), [[2], [2], [2]], False)
     return R
@@ -928,6 +943,46 @@ def _xray2d():
 def _abel():
     from scico.linop.abel import AbelTransform
     return AbelTransform((4, 4))
+
+
+def _r2c_linear(M):
+    import scico.numpy as snp
+    from scico import operator
+    return operator.Operator((M.shape[1],), eval_fn=lambda x: M @ x, input_dtype=np.float64)
+
+
+def _r2c_phase(A, B):
+    import scico.numpy as snp
+    from scico import operator
+    return operator.Operator((A.shape[1],), eval_fn=lambda x: (A @ x) * snp.exp(1j * (B @ x) * 0.25), input_dtype=np.float64)
+
+
+def _r2c_linop(M):
+    import scico.numpy as snp
+    from scico import linop
+    return linop.LinearOperator((M.shape[1],), output_shape=(M.shape[0],), eval_fn=lambda x: M @ x,
+                                adj_fn=lambda w: snp.real(snp.conj(M.T) @ w), input_dtype=np.float64,
+                                output_dtype=np.complex128)
+
+
+def _fn_mixed(kind, nargs=2, jit=False):
+    """Functions whose input and output dtypes differ: 'rc' real inputs -> complex output,
+    'cr' complex inputs -> real output"""
+    import scico.numpy as snp
+    from scico.function import Function
+    if kind == "rc":
+        if nargs == 2:
+            fn = lambda a, b: (a * b + 2.0 * a) * snp.exp(1j * (a - b) * 0.5) + 1j * b * b      # noqa: E731
+        else:
+            fn = lambda a, b, z: (a * b) * snp.exp(1j * z * 0.5) + (1.0 + 2.0j) * z * a - 1j * b   # noqa: E731
+        return Function(((2,),) * nargs, output_shape=(2,), eval_fn=fn, input_dtypes=np.float64,
+                        output_dtype=np.complex128, jit=jit)
+    if nargs == 2:
+        fn = lambda a, b: snp.real(a * snp.conj(b)) + snp.abs(a + 3.0) * snp.imag(b)            # noqa: E731
+    else:
+        fn = lambda a, b, z: snp.real(a * b * z) + snp.imag(snp.conj(a) * z) + snp.abs(b + 3.0)  # noqa: E731
+    return Function(((2,),) * nargs, output_shape=(2,), eval_fn=fn, input_dtypes=np.complex128,
+                    output_dtype=np.float64, jit=jit)
 
 
 def _fn3(c, jit=False):
@@ -1097,7 +1152,9 @@ def stream_jacobian(ctx):
     from scico import linop
     reg = op_registry()
     names = ["Abs", "Exp", "Angle", "Operator-eval_fn", "Operator-compose", "Operator-arith", "operator_from_function",
-             "Function.slice", "Operator.freeze", "MatrixOperator", "operator.VerticalStack", "Function.join"]
+             "Function.slice", "Operator.freeze", "MatrixOperator", "operator.VerticalStack", "Function.join",
+             "Operator-R2C-linear", "Operator-R2C-phase", "Function.slice-R2C", "LinearOperator-R2C", "Operator-C2R",
+             "Function.slice-C2R"]
     for rep in range(ctx.n(1, 10)):
         for name in names:
             c = {"kind": "jacobian", "name": name, "cplx": ctx.rng.random() < 0.5, "seed": ctx.rng.randint(0, 10 ** 9)}
@@ -1105,7 +1162,7 @@ def stream_jacobian(ctx):
             ctx.count("linop.jacobian-" + name, c)
 
 
-def run_jacobian_case(ctx, c, report=True):
+def run_jacobian_case(ctx, c, report=True, with_ie=True):
     import random
     from scico import linop
     from scico.numpy import BlockArray
@@ -1126,7 +1183,7 @@ def run_jacobian_case(ctx, c, report=True):
     m = flat(Fu).size
     v_np = to_np(rvec(rng, n, in_c), in_c)
     v = unflat(v_np, in_shapes, in_c)
-    w = unflat(to_np(rvec(rng, m, out_c), out_c), out_shapes, out_c)
+    w = unflat(to_np(rvec(rng, m, out_c, nz=out_c, margin=0.25), out_c), out_shapes, out_c)
     good = True
 
     def viol(what, expected=None, observed=None):
@@ -1149,11 +1206,13 @@ def run_jacobian_case(ctx, c, report=True):
             viol("jacobian(F,u).adj(w) differs from F.vjp(u)[1](w)", to_pairs(flat(JHw_ref)), to_pairs(flat(JHw)))
         if abs(re_ip(Jv, w) - re_ip(v, JHw)) > 1e-9 * max(1.0, abs(re_ip(Jv, w))):
             viol("jacobian eval/adj are not an adjoint pair", re_ip(Jv, w), re_ip(v, JHw))
+        if not close(Jop.H(w), JHw):
+            viol("jacobian(F,u).H(w) differs from .adj(w)", to_pairs(flat(JHw)), to_pairs(flat(Jop.H(w))))
     except Exception as ex:                      # noqa: BLE001
         viol("linop.jacobian raises an exception", "a LinearOperator", repr(ex)[:300])
         return good
     try:
-        if not is_block_shape(in_shapes) and not is_block_shape(out_shapes):
+        if with_ie and not is_block_shape(in_shapes) and not is_block_shape(out_shapes):
             Jie = linop.jacobian(F, u, include_eval=True)
             r, a = Jie(v), Jie.adj(w)
             if not (isinstance(r, BlockArray) and isinstance(a, BlockArray) and len(r) == 2 and len(a) == 2):
@@ -1170,18 +1229,24 @@ def run_jacobian_case(ctx, c, report=True):
     return good
 
 
-def gen_function_case(rng):
+def gen_function_case(rng, dtypes=None):
+    """dtypes: 'rr', 'cc' (same dtype in and out), 'rc' (real inputs, complex output), 'cr'"""
     nargs = rng.choice([2, 3])
-    cplx = rng.random() < 0.5
-    return {"kind": "function", "nargs": nargs, "cplx": cplx, "index": rng.randrange(nargs),
-            "fn": rng.choice(["poly", "mixed"]), "jit": rng.random() < 0.3,
-            "args": [rvec(rng, 2, cplx) for _ in range(nargs)], "v": rvec(rng, 2, cplx), "w": rvec(rng, 2, cplx)}
+    dtypes = dtypes or rng.choice(["rr", "cc", "rc", "cr"])
+    cplx, ocplx = dtypes[0] == "c", dtypes[1] == "c"
+    w = rvec(rng, 2, ocplx, nz=ocplx, margin=0.25)        # complex cotangents: non-zero imaginary parts
+    return {"kind": "function", "nargs": nargs, "cplx": cplx, "out_cplx": ocplx, "dtypes": dtypes,
+            "index": rng.randrange(nargs), "fn": rng.choice(["poly", "mixed"]), "jit": rng.random() < 0.3,
+            "args": [rvec(rng, 2, cplx) for _ in range(nargs)], "v": rvec(rng, 2, cplx), "w": w}
 
 
 def build_function(c):
     import scico.numpy as snp
     from scico.function import Function
     dt = np.complex128 if c["cplx"] else np.float64
+    if c.get("dtypes", "cc") in ("rc", "cr"):
+        F = _fn_mixed(c["dtypes"], c["nargs"], c["jit"])
+        return F, F._eval
     if c["nargs"] == 3:
         if c["fn"] == "poly":
             fn = lambda a, b, z: a * b + 2.0 * z * a - snp.conj(b) * z * z      # noqa: E731
@@ -1196,23 +1261,24 @@ def build_function(c):
                     output_dtype=dt, jit=c["jit"]), fn
 
 
-def run_function_case(ctx, c, report=True):
+def run_function_case(ctx, c, report=True, with_ie=True):
     import scico.numpy as snp
     from scico.numpy import BlockArray
     cplx, idx = c["cplx"], c["index"]
     F, fn = build_function(c)
     args_np = [to_np(a, cplx) for a in c["args"]]
     args = [snp.array(a) for a in args_np]
-    v_np, w_np = to_np(c["v"], cplx), to_np(c["w"], cplx)
+    ocplx = c.get("out_cplx", cplx)
+    v_np, w_np = to_np(c["v"], cplx), to_np(c["w"], ocplx)
     v, w = snp.array(v_np), snp.array(w_np)
     good = True
 
-    def viol(what, expected=None, observed=None):
+    def viol(what, expected=None, observed=None, unit="Function.jvp/vjp/jacobian"):
         nonlocal good
         good = False
         if report:
-            ctx.violation("Function.jvp/vjp/jacobian", what, dict(c), expected=expected, observed=observed,
-                          oracle="finite differences in the selected argument; <Jv,w> = <v,J^H w>")
+            ctx.violation(unit, what, dict(c), expected=expected, observed=observed,
+                          oracle="finite differences in the selected argument; <Jv,w> = <v,J^H w> in Re<.,.>")
 
     def at(t):
         a2 = list(args_np)
@@ -1234,24 +1300,41 @@ def run_function_case(ctx, c, report=True):
             viol("Function.vjp(conjugate=True) is not the adjoint of Function.jvp", re_ip(Jv, w), re_ip(v, G1(w)))
         if abs(bil_re(Jv, w) - bil_re(v, G0(w))) > 1e-9 * max(1.0, abs(bil_re(Jv, w))):
             viol("Function.vjp(conjugate=False) is not the plain transpose of Function.jvp", bil_re(Jv, w), bil_re(v, G0(w)))
+        if np.iscomplexobj(np.asarray(G1(w))) != cplx or np.iscomplexobj(np.asarray(Jv)) != ocplx:
+            viol("Function.jvp / vjp results have the wrong dtype", [cplx, ocplx],
+                 [str(np.asarray(G1(w)).dtype), str(np.asarray(Jv).dtype)])
         J = F.jacobian(idx, *args)
-        if not (close(J(v), Jv) and close(J.adj(w), G1(w))):
+        JHw = J.adj(w)
+        if not (close(J(v), Jv) and close(JHw, G1(w))):
             viol("Function.jacobian eval/adj differ from jvp/vjp", None, None)
+        if abs(re_ip(J(v), w) - re_ip(v, JHw)) > 1e-9 * max(1.0, abs(re_ip(Jv, w))):
+            viol("Function.jacobian eval/adj are not an adjoint pair in Re<.,.>", re_ip(J(v), w), re_ip(v, JHw))
+        if not close(J.H(w), JHw):
+            viol("Function.jacobian(...).H differs from .adj", None, None)
+    except Exception as ex:                      # noqa: BLE001
+        viol("Function.jvp / vjp / jacobian raises an exception", "Jacobian products", repr(ex)[:300])
+        return good
+    if not with_ie:
+        return good
+    try:
         Jie = F.jacobian(idx, *args, include_eval=True)
         r, a = Jie(v), Jie.adj(w)
         if not (isinstance(r, BlockArray) and isinstance(a, BlockArray) and close(r[0], fval) and close(a[0], fval)
                 and close(r[1], Jv) and close(a[1], G1(w))):
             viol("Function.jacobian(include_eval=True) blocks are not (F(*args), J v) / (F(*args), J^H w)", None, None)
     except Exception as ex:                      # noqa: BLE001
-        viol("Function.jvp / vjp / jacobian raises an exception", "Jacobian products", repr(ex)[:300])
+        c["in_complex"], c["out_complex"] = bool(cplx), bool(ocplx)
+        viol("linop.jacobian(include_eval=True) eval/adj raises an exception (via Function.jacobian)",
+             "two-block arrays (F(*args), J v) / (F(*args), J^H w)", repr(ex)[:300], unit="linop.jacobian")
     return good
 
 
 def stream_function(ctx):
-    for _ in range(ctx.n(24, 400)):
-        c = gen_function_case(ctx.rng)
+    kinds = ["rc", "cc", "cr", "rr"]
+    for i in range(ctx.n(24, 400)):
+        c = gen_function_case(ctx.rng, kinds[i % 4])
         run_function_case(ctx, c)
-        ctx.count(f"function-{c['nargs']}args-index{c['index']}" + ("-complex" if c["cplx"] else "-real"), c)
+        ctx.count(f"function-{c['nargs']}args-index{c['index']}-{c['dtypes']}", c)
 
 
 def gen_autograd_case(rng):
@@ -1677,10 +1760,15 @@ def replay(ctx: Ctx, rec):
         if lit is None:
             return ok
         return ok and _coq_single("C07_replay", "adj_case", "adj_case_ok", lit)
+    # the include_eval part is replayed only for a violation recorded in that part (it is a
+    # separate known finding for operators whose input and output dtypes differ in kind)
+    ie = str(rec.get("what", "")).startswith(("linop.jacobian(include_eval=True)", "include_eval=True",
+                                              "Function.jacobian(include_eval=True)"))
+    c = {k: v for k, v in c.items() if k not in ("in_complex", "out_complex")}
     if kind == "jacobian":
-        return run_jacobian_case(ctx, c, report=False)
+        return run_jacobian_case(ctx, c, report=False, with_ie=ie) if not ie else run_jacobian_case(ctx, c, report=False)
     if kind == "function":
-        return run_function_case(ctx, c, report=False)
+        return run_function_case(ctx, c, report=False, with_ie=ie)
     if kind == "autograd":
         return run_autograd_case(ctx, c, report=False)
     if kind == "hessian":
